@@ -126,3 +126,12 @@ def max_px(out, o, v, arte):
             pairs_lo(out, o, v, BR3T, 0) if arte == 6 else
             pairs_lo(out, o, v, SEMIGT, 1) if arte == 7 else
             pairs_lo(out, o, v, SEMIGT, 5))
+
+
+
+def vef_fields(bitmap, p, inp, ppb):
+    """image byte p (at file offset 18 + p) gives ppb palette-mapped pixels, most significant field first"""
+    b = inp[18 + p]
+    return ((bitmap[2 * p] == inp[2 + (b >> 4)] and bitmap[2 * p + 1] == inp[2 + (b % 16)]) if ppb == 2 else
+            (bitmap[4 * p] == inp[2 + (b >> 6)] and bitmap[4 * p + 1] == inp[2 + ((b >> 4) % 4)]
+             and bitmap[4 * p + 2] == inp[2 + ((b >> 2) % 4)] and bitmap[4 * p + 3] == inp[2 + (b % 4)]))
